@@ -608,8 +608,11 @@ pub fn open_loop(run: &mut Run, cfg: &SCfg, t0: u64, iters: usize, clears: bool,
                 && now_before_wait.saturating_add(pl.dt).saturating_sub(l.start) <= sc_tcp_timeout {
                 let seq = match cfg.pd { Pd::Src(_) => l.dp, _ => l.sp };
                 if truth.sent.get(&seq).is_some_and(|x| x.1 == 'o') {
+                    if std::env::var_os("TVH_DEBUG").is_some() { eprintln!("DEBUG answered(1) seq {seq} socket {}/{} env {:?} {req}", l.sp, l.dp, pl.env.get(i).map(SockEnv::token)); }
+                    // (only the first answer to a probe counts: the socket of a probe that a router's Time Exceeded has
+                    // already answered may still complete or be refused later — a duplicate the strategy rightly ignores)
+                    if !truth.answered.contains_key(&seq) { truth.target_answered = true; }
                     truth.answered.entry(seq).or_insert((cfg.dst, clock::now_ns()));
-                    truth.target_answered = true;
                     run.count("stack:tcp-answer-consumed");
                 }
             }
@@ -652,9 +655,14 @@ pub fn open_loop(run: &mut Run, cfg: &SCfg, t0: u64, iters: usize, clears: bool,
         }
         // ground truth: a genuine datagram that was really handed over answers its probe
         if let (Some((seq, from)), Some(resp)) = (pl.answers, &spy.last_resp) {
-            if resp.data().addr == from && truth.sent.get(&seq).is_some_and(|x| x.1 == 'o') {
+            // (what recv_probe returned must be that datagram: when the handshake of another probe completes in the same
+            // iteration the channel returns the target's TCP answer first — from the same address — and the datagram
+            // is not read in this call)
+            let handshake = matches!(resp, Response::TcpReply(_) | Response::TcpRefused(_));
+            if !handshake && resp.data().addr == from && truth.sent.get(&seq).is_some_and(|x| x.1 == 'o') {
+                if std::env::var_os("TVH_DEBUG").is_some() { eprintln!("DEBUG answered(2) seq {seq} {req}"); }
+                if from == cfg.dst && !truth.answered.contains_key(&seq) { truth.target_answered = true; }
                 truth.answered.entry(seq).or_insert((from, clock::now_ns()));
-                if from == cfg.dst { truth.target_answered = true; }
                 run.count("stack:genuine-delivered");
                 if rng.chance(4, 5) {
                     outstanding.retain(|(p, _)| p.sequence.0 != seq);
@@ -667,6 +675,7 @@ pub fn open_loop(run: &mut Run, cfg: &SCfg, t0: u64, iters: usize, clears: bool,
                 if matches!(resp, Response::TcpReply(_) | Response::TcpRefused(_)) {
                     let seq = match cfg.pd { Pd::Src(_) => t.dest_port, _ => t.src_port };
                     if truth.sent.contains_key(&seq) {
+                        if std::env::var_os("TVH_DEBUG").is_some() { eprintln!("DEBUG answered(3) seq {seq} {req}"); }
                         truth.answered.entry(seq).or_insert((resp.data().addr, clock::now_ns()));
                     }
                 }
